@@ -276,7 +276,8 @@ def large_counts(G, ctx):
                 ctx.property_failure(None, f"{method} index selection with N = {N} returns {idx.shape[0] if idx.ndim else 'a scalar'} ancestors instead of {N}", {**case, "returned": list(idx.shape)})
                 continue
             counts = np.bincount(idx, minlength=N)
-            lo, hi = np.floor(N * w - 1e-4), np.ceil(N * w + 1e-4)
+            tol = 1e-4 + 2e-7 * N * N        # float32 cumulative sums: boundaries move by up to ~N eps, i.e. ~N^2 eps in units of copies
+            lo, hi = np.floor(N * w - tol), np.ceil(N * w + tol)
             if idx.min() < 0 or idx.max() >= N or np.any(counts < lo) or np.any(counts > hi) or np.any(np.diff(idx) < 0):
                 bad = int(np.argmax((counts < lo) | (counts > hi)))
                 ctx.property_failure(None, f"systematic resampling with N = {N}: particle {bad} with N*w = {N * w[bad]:.3f} got {int(counts[bad])} copies (floor/ceil bound), or the ancestors are not ordered", {**case, "particle": bad})
